@@ -84,6 +84,53 @@ def r07b_params(rep, prog):
     return n
 
 
+def r07f(rep, prog):
+    """distances that may hold the infinity marker (numeric_limits::max) are only added through closed_plus, or under a has_finite_dist guard:
+    a raw `+` overflows for signed integral weight types (undefined behaviour; the library is instantiated with int in its own tests)"""
+    n = 0
+    for fn in prog.fns('parmcb::bidirectional_signed_dijkstra'):
+        cfg = fn.cfg
+        for d in fn.walk():
+            if not (d.k in ('BinaryOperator', 'CompoundAssignOperator') and d.op in ('+', '+=')):
+                continue
+            t = prog.base_type(d.j.get('t')) or {}
+            if not t.get('arith'):
+                continue
+            maybe_inf = [x for o in d.c for x in [o.strip_all()] + list(o.walk())
+                         if x.k == 'CXXMemberCallExpr' and x.callee and x.callee['name'] in ('get_dist', 'find_min')]
+            # locals holding such a value
+            for o in d.c:
+                v = ex.var_of(o)
+                if v is not None:
+                    df = ex.unique_def(fn, v)
+                    if df is not None:
+                        maybe_inf += [x for x in [df.strip_all()] + list(df.walk()) if x.k == 'CXXMemberCallExpr' and x.callee and x.callee['name'] in ('get_dist',)]
+            if not maybe_inf:
+                continue
+            n += 1
+            what = 'a distance that may be the infinity marker is added with closed_plus or under a has_finite_dist guard'
+            call = maybe_inf[0]
+            key = (ex.key(call.object_arg()) if call.object_arg() is not None else None, ex.key(call.args()[0]) if call.args() else None)
+
+            def atomize(leaf):
+                s_ = leaf.strip_all()
+                if s_.k == 'CXXMemberCallExpr' and s_.callee and s_.callee['name'] == 'has_finite_dist' and s_.object_arg() is not None and s_.args():
+                    if (ex.key(s_.object_arg()), ex.key(s_.args()[0])) == key:
+                        return ex.f_atom('finite')
+                return None
+            from .c10 import guards_formula, implies
+            g = guards_formula(cfg, d, atomize)
+            if 'finite' in ex.f_atoms(g) and implies(g, ex.f_atom('finite')):
+                rep.ok('R07f', d, fn, what, 'guarded by has_finite_dist for the same vertex')
+            elif t.get('float') and not t.get('int'):
+                rep.ok('R07f', d, fn, what, 'floating-point instantiation: max + x does not overflow')
+            else:
+                rep.violation('R07f', d, fn, what,
+                              '`%s` adds %s of a vertex the other frontier may not have reached (its label is numeric_limits::max()) with a plain +: '
+                              'signed integer overflow for integral weight types' % (d.text(60), call.callee['name']), key='R07f|%s|raw-plus' % fn.g)
+    return n
+
+
 def is_temporary(arg):
     """the argument expression materialises a temporary that is bound to the reference parameter"""
     n = arg
@@ -337,6 +384,8 @@ def run(rep, tier):
     rep.rule('R10s', 'R07c: %s conversions cannot overflow', floor=1)
     rep.rule('R10b', 'R07c: the optional trailing weight is initialised before sscanf (no read of an indeterminate double on unweighted lines)', floor=1)
     rep.rule('R07d', 'no dereference of end()', floor=0)
+    rep.rule('R07f', 'no plain + on a distance that may be the infinity marker (signed overflow for integral weights)', floor=0)
+    rep.rule('R20a', 'the heap-allocated TBB control object has an owner that releases it (no leak per call)', floor=1)
     rep.rule('R07e', 'unchecked indexing inside blocked_range task bodies stays in bounds', floor=1)
     tus = [env.witness_tu()]
     if tier == 'thorough':
@@ -349,6 +398,13 @@ def run(rep, tier):
         approx.report(rep, F, ['R05a'])
         c, s = r07b(rep, prog)
         r07b_params(rep, prog)
+        r07f(rep, prog)
+        # "releases what it allocated": the control object allocated by the concurrency knob (shared with C20)
+        from . import c20
+        sub20 = type(rep)(rep.prop, rep.tier)
+        c20.r20a(sub20, prog)
+        for i in sub20.instances.values():
+            rep.add('R20a', i.site, i.function, i.what, i.status, i.detail, key=i.key)
         nclasses, nsites = max(nclasses, c), max(nsites, s)
         nderef += r07d(rep, prog)
         r07e(rep, prog)
@@ -368,6 +424,9 @@ def run(rep, tier):
     pp = env.extract([pos], 'full')[pos]
     prep = type(rep)(rep.prop, rep.tier)
     r07b(prep, pp)
+    prep3 = type(rep)(rep.prop, rep.tier)
+    r07f(prep3, pp)
+    rep.positive('R07f', 'witness/positive/c07_shapes.cc', any(i.status == 'violation' for i in prep3.instances.values()))
     prep2 = type(rep)(rep.prop, rep.tier)
     r07b_params(prep2, pp)
     rep.positive('R07b', 'witness/positive/c07_shapes.cc (by-value parameter)', any(i.status == 'violation' for i in prep2.instances.values()))
